@@ -139,7 +139,7 @@ class ThermalMotion:
         - len(freq) > 1 and single t
 
         """
-        condition = t > 1.0
+        condition = t > 0
         # Avoid using isinstance with bool to distinguish from int.
         if isinstance(condition, (bool, np.bool_)):
             if condition:
